@@ -506,8 +506,31 @@ func (ex *Exec) callReflect(st *State, f *ssa.Function, args []Value) Value {
 	case "Convert":
 		t := args[0].(IfaceV).V.(RTypeV).T
 		return ReflV{T: t, V: ex.convert(st, rv.val(st), rv.T, t), Valid: true}
-	case "Slice":
-		unsupported("reflect.Value.Slice")
+	case "Slice", "Slice3":
+		sv, ok := rv.val(st).(SliceV)
+		if !ok {
+			unsupported("reflect.Value.%s on %s", name, k)
+		}
+		sv = st.simpSlice(sv)
+		lo, hi := st.simp(args[0].(*Term)), st.simp(args[1].(*Term))
+		max := sv.Cap
+		if name == "Slice3" {
+			max = st.simp(args[2].(*Term))
+		}
+		if sv.Obj == 0 {
+			max = ex.i64(0)
+			if name == "Slice3" {
+				max = st.simp(args[2].(*Term))
+			}
+			if !st.decide(c.And(c.Eq(lo, ex.i64(0)), c.And(c.Eq(hi, ex.i64(0)), c.Eq(max, ex.i64(0))))) {
+				ex.reflPanic(st, "reflect.Value."+name+": slice index out of bounds")
+			}
+			return ReflV{T: rv.T, V: ex.nilSlice(), Valid: true}
+		}
+		if !st.decide(c.And(c.Ule(max, sv.Cap), c.And(c.Ule(hi, max), c.Ule(lo, hi)))) {
+			ex.reflPanic(st, "reflect.Value."+name+": slice index out of bounds")
+		}
+		return ReflV{T: rv.T, V: SliceV{Obj: sv.Obj, Path: sv.Path, Off: c.Add(sv.Off, lo), Len: c.Sub(hi, lo), Cap: c.Sub(max, lo)}, Valid: true}
 	}
 	unsupported("reflect.Value.%s", name)
 	return nil
